@@ -80,7 +80,7 @@ impl Prop for C03Prop {
         "C03"
     }
     fn rule(&self) -> String {
-        "Cases are (evaluator, input, placeholder). Same exhaustive enumerations as C01 (piece sequences <=3 over the full vocabulary + foreign tokens, <=4/5 over class representatives, short strings over the keyword alphabet, keyword neighbourhood), long forms (flat chains of 2..512 operands of every operator with uniform, order-sensitive and boundary operands, 2..512 nested brackets / prefix signs / factorials / calls, juxtaposition chains, argument lists of 2..512 values), near-miss mutants of well-formed trees (delete/insert/duplicate/swap/replace a token, bracket damage, truncation, trailing token, arity change) and well-formed trees. Oracle: independent stratified recogniser; Ok requires Accept or DontCare; Accept with all operations defined (complex: always; f64/number: no Lambert W; i64/decimal: reference evaluator yields a value) requires Ok. non-trivial = >=2 reference tokens; distinct by (evaluator,input,placeholder).".into()
+        "Cases are (evaluator, input, placeholder). Same exhaustive enumerations as C01 (piece sequences <=3 over the full vocabulary + foreign tokens, <=4/5 over class representatives, short strings over the keyword alphabet, keyword neighbourhood), long forms (flat chains of 2..512 operands of every operator with uniform, order-sensitive and boundary operands, 2..512 nested brackets / prefix signs / factorials / calls, juxtaposition chains, argument lists of 2..512 values), near-miss mutants of well-formed trees (delete/insert/duplicate/swap/replace a token, bracket damage, truncation, trailing token, arity change) and well-formed trees; `sequence`: the same kinds of input (with whitespace sprinkled in) evaluated right after a prelude call on the same thread (a rejected prefix, a lexically broken or failing expression, with or without whitespace) - the verdict must not depend on the previous call. Oracle: independent stratified recogniser; Ok requires Accept or DontCare; Accept with all operations defined (complex: always; f64/number: no Lambert W; i64/decimal: reference evaluator yields a value) requires Ok. non-trivial = >=2 reference tokens; distinct by (evaluator,input,placeholder).".into()
     }
     fn assumptions(&self) -> Vec<String> {
         vec!["DontCare inputs (literal-literal adjacency, literals the type cannot hold, deg/rad followed by ^, superscript or !) are counted and not asserted".into()]
@@ -90,6 +90,7 @@ impl Prop for C03Prop {
         v.push(Sub { name: "long", kind: SubKind::Enum { count: super::long::all(true).len() as u64 } });
         v.push(Sub { name: "mutant", kind: SubKind::Random { cases: tier.pick(600_000, 30_000_000), len: 160 } });
         v.push(Sub { name: "wellformed", kind: SubKind::Random { cases: tier.pick(400_000, 20_000_000), len: 160 } });
+        v.push(Sub { name: "sequence", kind: SubKind::Random { cases: tier.pick(300_000, 10_000_000), len: 200 } });
         v
     }
     fn gen_enum(&self, sub: &str, idx: u64, tier: Tier) -> Option<Case> {
@@ -118,10 +119,46 @@ impl Prop for C03Prop {
         if char_len(&s) > 256 {
             return None;
         }
+        if sub == "sequence" {
+            // the verdict on an input must not depend on the call before it: a prelude (usually rejected, often a prefix of
+            // something well-formed, with or without whitespace) is evaluated first on the same thread
+            let ws = |t: String, c: &mut dyn Choices| -> String {
+                if c.below(2) == 0 {
+                    return t;
+                }
+                let mut cs: Vec<char> = t.chars().collect();
+                for _ in 0..(1 + c.below(3)) {
+                    let at = c.below(cs.len() as u32 + 1) as usize;
+                    cs.insert(at, [' ', ' ', '\t', '\u{a0}'][c.below(4) as usize]);
+                }
+                cs.into_iter().collect()
+            };
+            let other = grammar::render(&gen::gen_expr(&p, c, 3));
+            let prelude = match c.below(6) {
+                0 => gen::mutate(ev, &other, c).0,
+                1 => {
+                    let cs: Vec<char> = other.chars().collect();
+                    cs[..c.below(cs.len() as u32 + 1) as usize].iter().collect()
+                }
+                2 => format!("{}+{}", other, ["1.2.3", "1..5", "3.14.15", "#", "(", "2)"][c.below(6) as usize]),
+                3 => format!("{}/0+w(-5)", other),
+                4 => format!("({}", other),
+                _ => other,
+            };
+            let (prelude, input) = (ws(prelude, c), if c.below(3) == 0 { ws(gen::mutate(ev, &s, c).0, c) } else { ws(s, c) });
+            let mut case = Case::new(ev, input, ph);
+            case.aux = vec![prelude];
+            return Some(case);
+        }
         Some(Case::new(ev, s, ph))
     }
-    fn check(&self, _sub: &str, case: &Case, sc: &mut ShardCtx) -> Result<(), Failure> {
+    fn check(&self, sub: &str, case: &Case, sc: &mut ShardCtx) -> Result<(), Failure> {
         let ev = case.ev;
+        if sub == "sequence" {
+            if let Some(prelude) = case.aux.first() {
+                let _ = eval_normal(sc, ev, prelude, &case.ph);
+            }
+        }
         let verdict = grammar::recognise(ev, &case.input);
         let o = match eval_normal(sc, ev, &case.input, &case.ph) {
             Some(o) => o,
